@@ -173,6 +173,9 @@ func (fr *Frame) callFn(st *State, fn *ssa.Function, args []Value, deferOf int) 
 		fmt.Fprintf(os.Stderr, "%*scall %s (from %s)\n", fr.depth*2, "", full, fr.fn.Name())
 	}
 	if m := v.model(full); m != nil {
+		if short, ok := fr.tracksModel(fn); ok {
+			return fr.trackedModel(st, m, short, fn, args)
+		}
 		return m(fr, st, args, fn.Signature)
 	}
 	ctr := v.contractFor(fn)
@@ -768,6 +771,61 @@ func shortFn2(fn *ssa.Function) string {
 		return fn.RelString(fn.Pkg.Pkg)
 	}
 	return nameQualified(fn)
+}
+
+// A call that is executed by a built-in model (bytes.Buffer, errors, ...) is invisible to called() /
+// callres() / 'at call' clauses unless the contract of the function under verification names it
+// ("Bytes#1"): then it is counted and recorded like a contract-applied call.
+func (fr *Frame) tracksModel(fn *ssa.Function) (string, bool) {
+	root := fr
+	for root.parent != nil {
+		root = root.parent
+	}
+	if root.ctr == nil {
+		return "", false
+	}
+	short := shortFn2(fn)
+	nm := short
+	if i := strings.LastIndex(nm, "."); i >= 0 {
+		nm = nm[i+1:]
+	}
+	for _, cl := range root.ctr.Clauses {
+		if cl.Kind == "atcall" && cl.Callee != "" && strings.Contains(short, cl.Callee) && strings.HasSuffix(cl.Callee, nm) {
+			return short, true
+		}
+		if strings.Contains(cl.Src, "\""+nm+"#") {
+			return short, true
+		}
+	}
+	return "", false
+}
+
+func (fr *Frame) trackedModel(st *State, m modelFn, short string, fn *ssa.Function, args []Value) []Outcome {
+	vars := map[string]Value{}
+	for i, n := range paramNames(fn.Signature, fn, false) {
+		if i < len(args) {
+			vars[n] = args[i]
+		}
+	}
+	if fn.Signature.Recv() != nil && len(args) > 0 {
+		vars["self"] = args[0]
+	}
+	fr.calls[short]++
+	fr.atCallAsserts(st, short, fr.calls[short], vars)
+	outs := m(fr, st, args, fn.Signature)
+	for _, o := range outs {
+		if o.St == nil || o.Panic {
+			continue
+		}
+		if o.St.callRes == nil {
+			o.St.callRes, o.St.callArgs, o.St.callN = map[string][]Value{}, map[string][]Value{}, map[string]int{}
+		}
+		o.St.callN[short]++
+		pk := fmt.Sprintf("%s#%d", short, o.St.callN[short])
+		o.St.callRes[pk] = o.Res
+		o.St.callArgs[pk] = args
+	}
+	return outs
 }
 
 // assertions of the enclosing verified function attached to call sites
